@@ -196,6 +196,12 @@ class Alias(Domain):
             if name in NP_INPLACE_ARG0 and args:
                 self.mutation(I, args[0], node, 'np.%s' % name)
                 return FRESH
+            if name == 'nan_to_num' and args:
+                cp = kwargs.get('copy')
+                if cp is not None and not (isinstance(cp, Const) and cp.v is True):
+                    self.mutation(I, args[0], node, 'np.nan_to_num(copy=False)')        # rewrites the non-finite entries of its argument in place
+                    return self.c(args[0])
+                return FRESH
             if name in NP_VIEW and args:
                 return self.c(args[0])
             if name in ('array',):
